@@ -72,6 +72,10 @@ func (f *WithMutexLock) Call(s *slip.Scope, args slip.List, depth int) (result s
 	forms := args[1:]
 	for i := range forms {
 		result = slip.EvalArg(s, forms, i, d2)
+		switch result.(type) {
+		case *slip.ReturnResult, *slip.GoTo:
+			return
+		}
 	}
 	return
 }
